@@ -82,3 +82,7 @@ Definition run_track (op pa fo ma ch di un : bool) (errs : list N) (check : bool
   let f := track_errors (MkFlags op pa fo ma ch di un)
                         (map (fun n => MkErr 1 (ek_of_N n) false false) errs) in
   (enc_flags f, exit_code f check, exit_code_stdin f).
+
+(* the range recorded for a skip-marked item: (src_start, attrs_end, first_line, body_nl, out_before) -> (well-formed, lo, hi) *)
+Definition run_skip_range (a b c d e : N) : bool * N * N :=
+  let s := MkSite a b c d e in (site_okb s, fst (range_recorded s), snd (range_recorded s)).
